@@ -209,6 +209,12 @@ Theorem C10_queue_timeout_only_if_waited : forall dispatch cfg r st p, stamps_ok
   ((0 < q_timeout r)%Z /\ (Z.of_N (waited st) > (q_timeout r - 1) * 1000000)%Z) \/
   (0 < c_ht cfg /\ c_ht cfg * ns_per_ms <= t_sel st - t_hdl st).
 Proof. exact InvokeTimeProofs.timed_queue_timeout_only_if_waited. Qed.
+(* the same for an observer with a clock (what the harness checks on every answered request): sent at [send], reply read
+   at [seen] - a queue-timeout answer must fit between the two *)
+Theorem C10_queue_timeout_window : forall dispatch cfg r st p send seen, stamps_ok st -> send <= t_arr st -> t_sel st <= seen ->
+  In (FromQueueTimeout, p) (fst (timed_step dispatch cfg r st)) ->
+  qt_window_ok (q_timeout r) (c_ht cfg) send seen = true.
+Proof. exact InvokeTimeProofs.qt_window_sound. Qed.
 (* ... and a request that carried a timeout and waited that long is never executed *)
 Theorem C10_waited_then_not_executed : forall dispatch cfg r st, stamps_ok st -> (0 < q_timeout r)%Z ->
   (Z.of_N (waited st) >= q_timeout r * 1000000)%Z ->
@@ -297,6 +303,7 @@ Print Assumptions C10_tcp_segmentation.
 Print Assumptions C10_timed_count.
 Print Assumptions C10_timed_identity.
 Print Assumptions C10_queue_timeout_only_if_waited.
+Print Assumptions C10_queue_timeout_window.
 Print Assumptions C10_waited_then_not_executed.
 Print Assumptions C10_queue_timeout_exact_refuted.
 Print Assumptions C10_sub_ms_bounds.
